@@ -122,6 +122,42 @@ theorem split_selects_window (l : List SFile)
     (findFile l pfn = some m ∧ m.startPfn ≤ pfn) ↔ (m ∈ l ∧ m.startPfn ≤ pfn ∧ pfn < m.endPfn) :=
   findFile_window l hs hw pfn m
 
+/-- **A frame outside every window of the set is an excluded frame.**  For a set whose windows do not overlap (they need
+not cover the frame space: files may be missing, the last window may end before `max_mapnr`), a frame below `maxPfn` that no
+window contains is read as a page of zeroes when `file.zero_excluded` is on and as "no data" when it is off - exactly what the
+plain single-file dump gives for a frame without a descriptor.  In particular the read never reaches a descriptor. -/
+theorem split_uncovered_excluded (l : List SFile)
+    (hs : l.Pairwise (fun a b => a.endPfn ≤ b.startPfn)) (hw : ∀ m ∈ l, m.startPfn ≤ m.endPfn)
+    (maxPfn pfn : Nat) (hlt : pfn < maxPfn) (zx : Bool)
+    (hout : ∀ m ∈ l, ¬ (m.startPfn ≤ pfn ∧ pfn < m.endPfn)) :
+    readPageSrc l maxPfn zx pfn = if zx then .zero else .nodata := by
+  have hnone : pdLookup l maxPfn pfn = none := by
+    unfold pdLookup
+    rw [if_neg (by omega)]
+    cases hf : findFile l pfn with
+    | none => rfl
+    | some m =>
+      simp only
+      by_cases hle : m.startPfn ≤ pfn
+      · have := (findFile_window l hs hw pfn m).mp ⟨hf, hle⟩
+        exact absurd ⟨this.2.1, this.2.2⟩ (hout m this.1)
+      · rw [if_neg hle]
+  unfold readPageSrc
+  rw [if_neg (by omega), hnone]
+
+/-- the option only matters for frames without a descriptor: a frame whose descriptor is found is read from it either way,
+and nothing is ever delivered for a frame at or above `maxPfn` -/
+theorem zero_excluded_only_excluded (l : List SFile) (maxPfn pfn : Nat) :
+    (∀ fi pos, pdLookup l maxPfn pfn = some (fi, pos) → ∀ zx, readPageSrc l maxPfn zx pfn = .desc fi pos) ∧
+    (maxPfn ≤ pfn → ∀ zx, readPageSrc l maxPfn zx pfn = .nodata) := by
+  refine ⟨fun fi pos h zx => ?_, fun h zx => ?_⟩
+  · have hlt : ¬ pfn ≥ maxPfn := by
+      intro hge; unfold pdLookup at h; rw [if_pos hge] at h; cases h
+    unfold readPageSrc
+    rw [if_neg hlt, h]
+  · unfold readPageSrc
+    rw [if_pos h]
+
 /-! ### Non-vacuity -/
 
 /-- a stream with two overlapping records and a hole: bytes 1,2,3 at 0, byte 9 at 1, END -/
